@@ -67,7 +67,11 @@ def msg_class(msg, op):
 
 ALIAS_OPS = {"vnacal_add_calibration_own_name": "vnacal_add_calibration",
              "vnadata_set_format_own": "vnadata_set_format",
-             "vnacal_save_own_filename": "vnacal_save"}
+             "vnacal_save_own_filename": "vnacal_save",
+             "vnadata_set_fz0_vector_own": "vnadata_set_fz0_vector",
+             "vnadata_set_z0_vector_own": "vnadata_set_z0_vector",
+             "vnadata_set_frequency_vector_own":
+                 "vnadata_set_frequency_vector"}
 
 
 def contract(res, text, part, must_fail=None, usage=None, where=""):
